@@ -1,1 +1,1 @@
--- placeholder
+import OasisProofs.Props.C20
